@@ -309,7 +309,7 @@ def search(tier, rng):
     n_pat = 500 if tier == 'quick' else 6000
     for i in range(n_pat):
         t, n = TYPES[i % len(TYPES)]
-        yield J('p_mock_pattern', t, *pattern(rng, t, valid_only=True, upper_only=True))
+        yield J('p_mock_pattern', t, *pattern(rng, t, valid_only=True, upper_only=(i % 3 != 0)))
     for t, n in TYPES:
         for code in list(range(32, 127)) + [0, 9, 10, 127, 160, 178, 233, 1633, 65297, 65313, 120793, 0x10FFFF]:
             yield J('p_mock_char', t, code)
@@ -324,7 +324,7 @@ def trivial(line, res):
 
 
 RULE = ('correspondence: (i) random operation histories on a new display (draw_pixel, draw_iter, default fill_solid / fill_contiguous / '
-        'clear, set_pixel, flag changes; 1-13 operations) under the four combinations of allow_overdraw / allow_out_of_bounds_drawing, '
+        'clear, set_pixel, set_pixels, flag changes; 1-13 operations; a flag that keeps the default of new() is left unset half of the time) under the four combinations of allow_overdraw / allow_out_of_bounds_drawing, '
         'points inside, on the border, just outside, on the cells an unchecked index would alias, and at the i32 extremes, repeated points '
         'with tunable probability; interleaved probes get_pixel / affected_area / swap_xy / Debug / full dump; panics caught and compared '
         'by kind; for all 12 colour types; (ii) pairs of histories for == and diff (equal, one cell apart at every corner/border, unrelated); '
@@ -333,7 +333,9 @@ RULE = ('correspondence: (i) random operation histories on a new display (draw_p
         'A case is non-trivial when the model result is not an empty dump/none; distinct = distinct case lines. '
         'search (p_*): the same inputs judged on the implementation alone against an independent HashMap reference: expected panic kind, '
         'get_pixel on a 70x70 window + far points after every operation, tight bounding box, ==/diff against the reference maps, '
-        'from_pattern against the documented character tables, Debug text against the documented format, and the round trip.')
+        'from_pattern against the documented character tables (upper and lower case hex), Debug text against the documented format and '
+        'character tables (also for the dbg probe inside histories: \'?\' exactly for colours without a character), the round trip, and '
+        'assert_eq / assert_pattern (+ _with_message): panic exactly when the cells differ, message shows both displays.')
 EXHAUSTIVE = {'quick': False, 'thorough': False}
 ASSUMPTIONS = ['histories are judged up to their first panic (a panicking test is a failed test); the state left behind by a caught panic '
                'is compared by the search suite only',
@@ -345,17 +347,20 @@ TRUSTED = ['modelled, not verified: core::char::to_digit / from_digit / to_ascii
            'Debug: the header / "(n empty rows skipped)" text is modelled (debug_string) and compared by correspondence; the theorems speak '
            'about the rows (debug_rows)']
 PARTIAL = []
-LEVEL_TEXT = ('Proof: 34 Coq theorems over the Gallina model of MockDisplay (coq/Model/Mockdisplay.v: the 4096-cell array with the index '
+LEVEL_TEXT = ('Proof: 42 Coq theorems over the Gallina model of MockDisplay (coq/Model/Mockdisplay.v: the 4096-cell array with the index '
               'arithmetic as written, both flags, every panic as a value). After ANY operation history that runs to its end get_pixel(p) is the '
               'content given by the last event at p and None elsewhere and outside the display (induction over the history); drawing panics '
               'exactly at the first pixel outside the display / drawn twice while the respective check is on, and with no other panic kind; '
               'affected_area is zero when nothing is touched, contains every touched cell, is contained in every rectangle that does, and each of '
               'its sides touches a touched cell; == holds exactly when all 64x64 cells agree; diff never panics, colours exactly the differing cells '
               'GREEN/RED/BLUE and is empty exactly when ==; swap_xy mirrors, map applies its function cell by cell, from_points sets exactly the listed points; for all 12 ColorMapping tables (regenerated from color_mapping.rs on '
-              'every run) colour->char->colour and char->colour->char are identities on the documented sets, from_pattern puts the colour of the '
+              'every run) colour->char->colour and char->colour->char are identities on the documented sets (pinned: character sets, all RGB '
+              'raw values, the default arm \'?\' which is never a pattern character, so a printed character identifies its colour), from_pattern puts the colour of the '
               'character in row y, column x into cell (x,y), Debug prints a pattern back (padded, trailing blank rows dropped) and parsing '
               'Debug output gives back the same display. Model and code are tied by running both on the same histories / patterns on every run.')
 LEVEL_NOTE = ('Trusted: Coq kernel, extraction (ExtrOcamlBasic), the OCaml/Rust drivers and the translator gen_mock.py (fails closed on any '
-              'unknown source shape); the hand-written model is validated by differential testing (panics caught and canonicalised), not proved '
-              'equal to the Rust code. assert_eq / assert_pattern message paths and EG_FANCY_PANIC output are not modelled.')
+              'unknown source shape, incl. the Default impl behind MockDisplay::new()); the hand-written model is validated by differential '
+              'testing (panics caught and canonicalised), not proved equal to the Rust code. assert_eq / assert_pattern (+ _with_message) are '
+              'not modelled; the search suite p_mock_assert checks on the implementation that they panic exactly when the cells differ and '
+              'show both displays. EG_FANCY_PANIC output and affected_area_origin (private, used only there) are not covered.')
 CLAIMED = True
